@@ -186,6 +186,10 @@ impl<F: Float + SampleUniform + std::fmt::Debug, D: Hash + Copy, H: Hasher + Def
     fn densify(&mut self) -> anyhow::Result<()> {
         // now we run densification
         let m: usize = self.hsketch.len();
+        if self.nb_empty == m as i64 {
+            // nothing was sketched: there is no populated bin to copy from, the search below would never end
+            return Err(anyhow::anyhow!("densify : no data sketched, all bins are empty"));
+        }
         let mut nbpass = 1u64;
         let inrange = Uniform::<usize>::new(0, m).unwrap();
         for k in 0..m {
@@ -359,6 +363,10 @@ impl<F: Float + SampleUniform + std::fmt::Debug, D: Hash + Copy, H: Hasher + Def
     fn densify(&mut self) -> anyhow::Result<()> {
         // now we run densification
         let m: usize = self.hsketch.len();
+        if self.nb_empty == m as i64 {
+            // nothing was sketched: there is no populated bin to copy from, the loop below would never end
+            return Err(anyhow::anyhow!("densify : no data sketched, all bins are empty"));
+        }
         let unif_m = Uniform::<usize>::new(0, m).unwrap();
         let mut pass: u64 = 1;
         while self.nb_empty > 0 {
